@@ -332,8 +332,25 @@ func c14(r *mon.Run) {
 		"aVeryLongIdentifierWithManyCharactersInIt_0123456789_abcdefghijklmnopqrstuvwxyz", "__", "_0", "e1", "E5", "x0x", "inf", "nan", "NaN", "Infinity", "length_", "keys", "values", "type", "contains", "reverse", "merge", "join", "map",
 		"null-", "true.", "a-b", "1null", "nullé", "é", "null null", "length(", "a$", "$a", "a.b", "sort-by"}
 	n12 := 128 + 128*128
-	nid := n12 + len(id3)*len(id3)*len(id3) + len(longIDs)
+	nbmp := (0x10000 - 0x80) * 2 // every code point U+0080…U+FFFF alone and right after a letter (plus a sample beyond the BMP)
+	nastral := 2048 * 2
+	nid := n12 + len(id3)*len(id3)*len(id3) + len(longIDs) + nbmp + nastral
 	idAt := func(i int) string {
+		if k := i - n12 - len(id3)*len(id3)*len(id3) - len(longIDs); k >= 0 {
+			var cp rune
+			if k < nbmp {
+				cp = rune(0x80 + k/2)
+				if cp >= 0xd800 && cp <= 0xdfff {
+					cp = 0xfffd
+				}
+			} else {
+				cp = rune(0x10000 + ((k-nbmp)/2)*509%0x100000)
+			}
+			if k%2 == 0 {
+				return string(cp)
+			}
+			return "k" + string(cp)
+		}
 		if k := i - n12 - len(id3)*len(id3)*len(id3); k >= 0 {
 			return longIDs[k]
 		}
